@@ -41,7 +41,8 @@ CFG = {
                   "the window cannot be hit deterministically without a hook, so the correspondence does not exercise it); the "
                   "full clause is proved for the model with the one-line re-check (C18_cycle_recheck).",
     "components": [{"component": "gather", "session_start": "new", "trivial_regex": r"^(bad-op.*|r=err:.*)$",
-                    "timeout_quick": 300, "timeout_thorough": 1500, "shrink_s": 40}],
+                    "timeout_quick": 300, "timeout_thorough": 1500, "shrink_s": 40},
+                   {"component": "activetcp", "timeout_quick": 120, "timeout_thorough": 300}],
     "rule": "quick: all 16 network-type subsets x {no TCP mux, TCP mux} x 2 interface tables with double gather and restart; "
             "20 configurations covering every kind of local candidate x mDNS name on/off x a reply script; 39 lists of TURN URLs with / without username / password (every order) x 2 configurations x a reply script; continual gathering: 13 configurations x a script with an address appearing 1 ms before / at a tick, special-purpose, "
             "loopback, filtered and down-interface addresses, removal, interface down/up, Restart, Close; Restart / Close / refused "
